@@ -25,10 +25,26 @@ def build(rng, n, m, rects, place):
     sp = {}
     def spell(k, a):
         return sp.setdefault((k, a), rng.choice(['bare', 'explicit']))
-    HID = ['<w:p/>', '<w:p/>', '<w:p><w:pPr><w:pStyle w:val="Heading1"/></w:pPr></w:p>', '<w:p><w:pPr><w:jc w:val="center"/></w:pPr><w:r><w:rPr><w:b/></w:rPr></w:r></w:p>',
-           '<w:p><w:pPr><w:pStyle w:val="Heading3"/><w:rPr><w:i/></w:rPr></w:pPr></w:p>']
+    HID = [('<w:p/>', ''), ('<w:p/>', ''), ('<w:p><w:pPr><w:pStyle w:val="Heading1"/></w:pPr></w:p>', '<h1></h1>'),
+           ('<w:p><w:pPr><w:jc w:val="center"/></w:pPr><w:r><w:rPr><w:b/></w:rPr></w:r></w:p>', ''),
+           ('<w:p><w:pPr><w:pStyle w:val="Heading3"/><w:rPr><w:i/></w:rPr></w:pPr></w:p>', '<h3></h3>')]
     hid = {}
-    xml, expected = render(rects, n, m, tx, spell, hidden=lambda k, a: hid.setdefault((k, a), rng.choice(HID)))
+    style = {}          # paragraph text -> heading level (the first paragraph of some cells is a heading)
+    for k, ts in enumerate(tx):
+        if rng.random() < 0.3: style[ts[0]] = rng.choice([1, 2, 3])
+    def para(t):
+        ppr = f'<w:pPr><w:pStyle w:val="Heading{style[t]}"/></w:pPr>' if t in style else ''
+        return f'<w:p>{ppr}<w:r><w:t xml:space="preserve">{t}</w:t></w:r></w:p>'
+    xml, expected0 = render(rects, n, m, tx, spell, para=para, hidden=lambda k, a: hid.setdefault((k, a), rng.choice(HID))[0])
+    def expected(dup, html=False):
+        def cell(c):
+            out = []
+            for x in c:
+                if isinstance(x, tuple): out.append(hid[(x[1], x[2])][1] if html else '')
+                elif html and x in style: out.append(f'<h{style[x]}>{x}</h{style[x]}>')
+                else: out.append(x)
+            return out
+        return [[cell(c) for c in rw] for rw in expected0(dup)]
     before = p(r('«9001»before')); after = p(r('«9002»after'))
     parts = {}
     if place == 'body-first': body = xml + after
@@ -51,13 +67,13 @@ def one(ctx, data, expected, attr, meta):
         case = case_payload(data, html=html, dup=dup, meta=meta)
         if not compare_keys(ctx, 'extracted table', data, html, dup, i, m, [attr, attr + '_runs'], {'meta': meta}): good = False
         if 'ok' not in i.get(attr, {}): ctx.skipped_raises += 1; continue
-        want = expected(dup)
+        want = expected(dup, html)
         tables = i[attr]['ok']
-        first = want[0][0][0]
+        first = expected(dup, False)[0][0][0]
         hit = [t for t in tables if t and t[0] and t[0][0] and first in ''.join(t[0][0])]
         # inside a note the label is prefixed to the first paragraph; strip known prefixes for comparison
         import re as _re
-        def norm(t): return [[[_re.sub(r'^<(h\d)></\1>$', '', s) for s in c] for c in rw] for rw in t]      # an empty paragraph keeps its heading tags with html on
+        def norm(t): return [[[(_re.sub(r'</?h\d>', '', s) if STRIP_H else s) for s in c] for c in rw] for rw in t]
         if len(hit) != 1 or norm(hit[0]) != want:
             ctx.fail('a regular source table is not extracted as the n x m grid of its covering cells', case, {'extracted': hit[:2] or tables[:3], 'expected': want}); good = False
         res[(html, dup)] = hit[0] if hit else None
@@ -73,6 +89,9 @@ def one(ctx, data, expected, attr, meta):
     if good: ctx.validated += 1
     if any(h * w > 1 for (_, _, h, w) in meta['rects']) and meta['n'] >= 2: ctx.nontrivial(jhash(meta))
     return good
+
+
+STRIP_H = False      # replay: the expectation is rebuilt from the archive without paragraph styles
 
 
 PLACES = ['body-first', 'body-last', 'body-mid', 'nested', 'header', 'footnote']
@@ -129,7 +148,12 @@ def replay(ctx, rep):
     order = sorted(range(len(rects)), key=lambda k: (rects[k][0], rects[k][1]))
     tx = [None] * len(rects)
     for k, t in zip(order, texts): tx[k] = t
-    _, expected = render(rects, meta['n'], meta['m'], tx, lambda k, a: 'bare')
+    import re as _re
+    _, expected1 = render(rects, meta['n'], meta['m'], tx, lambda k, a: 'bare')
+    def expected(dup, html=False):
+        return [[[('' if isinstance(x, tuple) else x) for x in c] for c in rw] for rw in expected1(dup)]
     attr = {'header': 'header', 'footnote': 'footnotes'}.get(meta['place'], 'body')
+    global STRIP_H
+    STRIP_H = True
     one(ctx, data, expected, attr, meta)
     ctx.rule = 'replay of one stored case'
